@@ -17,13 +17,13 @@ CHECKS = {
          "Trusted: reference model (kmodel), raw bucket reader. Bounded id/value universes.", "6/C03"),
  "C04": ("exploration", "online structural monitor + cascade/restrict reference model over every fk wiring and hostile ids",
          "Histories over six fk wirings incl. self reference with ids containing quotes, backslashes, keywords; back-reference buckets, dangling references and the surviving-id set after deletes are compared with the model after every transaction.",
-         "Cascade closures include reference cycles and self references. Restrict-inside-cascade order-dependent cases skipped. CascadeCreateUpdate = declared non-enforcement on delete.", "6/C04"),
+         "Cascade closures include reference cycles and self references; a non-nullable fk / unique index of a child store whose part is created over an existing entity; every fifth transaction under a cancelled context.Context. Restrict-inside-cascade order-dependent cases skipped. CascadeCreateUpdate = declared non-enforcement on delete.", "6/C04"),
  "C05": ("exploration", "bounded-exhaustive SetLinks pairs + random link/ref-count histories with structural monitor",
          "Every (current set, requested list) pair over a 4-element universe (thorough: all, quick: sample) plus random histories; both sides of every link / count compared raw and through the API after each transaction.",
          "Counts that are no counts (negative, beyond int32) may be refused or read as a removal, but must never be stored (model-free part); the model-based histories use counts 0-3.", "6/C05"),
  "C06": ("exploration", "full-file scan for the deleted id after every committed delete, then re-create and re-check against the model",
          "After each committed delete (incl. cascades) an independent scanner searches every key and value of the file for the id (raw and type-tagged); the id is then re-created and must behave as new.",
-         "Ids are disjoint from all value pools so a hit is a real trace. CascadeCreateUpdate referrers excluded (declared behaviour).", "6/C06"),
+         "Ids are disjoint from all value pools so a hit is a real trace. A model-free part covers a link collection whose two sides are one symbol (self links, links and deletes in one transaction). CascadeCreateUpdate referrers excluded (declared behaviour).", "6/C06"),
  "C07": ("fault_enumeration", "fault injection at every write primitive and every failure kind x position; dump equality + callback counters",
          "For each transaction body every failure kind is injected at every position, including a storage error at the n-th boltz write primitive for n=1..W via the verif hook; the caller must get an error, the dump must be unchanged, no listener/commit action may run, and the failing store call itself must return non-nil.",
          "Also covers the migration manager as a transaction body and one MutateContext carried through several transactions (incl. overlapping commit actions and a panicking body). Trusted: the verif hook placement (boltz write primitives); bbolt commit failures are out of scope.", "6/C07"),
@@ -35,7 +35,7 @@ CHECKS = {
          "Report matching is by id/value mention; extra reports on a corrupted db not judged.", "6/C09"),
  "C10": ("exploration", "panic / watchdog monitor over grammar-derived, mutated, bounded-exhaustive token sequences and random bytes; junk-character rejection oracle",
          "Every input is parsed and, if accepted, evaluated against datasets incl. nulls and empty stores; a panic or watchdog expiry is a violation; inputs that are non-sentences by construction (unrecognised characters outside strings) must be rejected.",
-         "No independent recogniser for the grammar: acceptance of ill-formed text made only of recognised characters is not judged. Termination restated as a per-input watchdog.", "6/C10"),
+         "Datasets include stored values shorter than their type tag (raw writes) and text that is not valid UTF-8 (must be refused). No independent recogniser for the grammar: acceptance of ill-formed text made only of recognised characters is not judged. Termination restated as a per-input watchdog.", "6/C10"),
  "C11": ("exploration", "differential over all strings up to a length bound with confusable rows",
          "For every string s over a hostile alphabet, field = lit(s) (and !=, in, contains, anyOf) must match exactly the rows equal to s among s and its confusables; ParseZqlString(lit(s)) = s.",
          "Alphabet and length bound; lit() escapes as the statement describes.", "6/C11"),
@@ -53,19 +53,19 @@ CHECKS = {
          "A create through a child store over an entity without data in that store is read as an update of the shared part plus new child data (what the repaired code does). A model-free part covers two sibling child stores (plain / extended, with a link collection of its own).", "6/C15"),
  "C16": ("exploration", "histories over context kind x entity kind x op with model outcomes and dump equality on refusals",
          "Every combination of system/ordinary context and entity incl. flag flips; outcome vs model; refused transactions leave the dump unchanged; flag never changes.",
-         "", "6/C16"),
+         "Every entity of the constrained store is linked (plain and ref-counted collection) to two entities of another store; links, indexes and child-store indexes are compared after every transaction, tolerant callers included.", "6/C16"),
  "C17": ("exploration", "dump equality after restore; stamped-state readers + porcupine register linearizability under the race detector",
          "Sequential: snapshot by every route, mutate, restore, dumps must be equal modulo the two markers; concurrent: readers verify whole-state stamps during restores, history checked with porcupine, race detector on.",
-         "Interleavings sampled. Snapshot / RootBucket inside transactions run next to the restores; bounded progress (no client completes anything for 20 s) is the verdict for hangs, with the goroutine dump as witness.", "6/C17"),
+         "Interleavings sampled. Two restores at the same time (readers that meet half way) must leave one of the two snapshots in full; restore listeners are independent (one waits, bounded, for another). Snapshot / RootBucket inside transactions run next to the restores; bounded progress (no client completes anything for 20 s) is the verdict for hangs, with the goroutine dump as witness.", "6/C17"),
  "C18": ("exploration", "stamped-state readers vs writer under the Go race detector; helper hammering",
          "Readers verify every query/index/link read equals state(g) of one generation; race reports in openziti/storage or antlr are violations.",
-         "Interleavings sampled; compiled queries are not shared between goroutines (not claimed); providers, role slices and symbol tables are.", "6/C18"),
+         "Interleavings sampled; literal converters (ParseZqlDatetime / ParseZqlString) are called by goroutines with literals of their own and their results checked; compiled queries are not shared between goroutines (not claimed); providers, role slices and symbol tables are.", "6/C18"),
  "C19": ("exploration", "three-way differential: ObjectStore vs bolt store vs reference evaluator over the paging boundary grid",
          "Same collections in both stores, same queries; objects, order and count compared pairwise and with the oracle.",
-         "Scalar symbols only.", "6/C19"),
+         "Scalar symbols only. Compiled queries are run twice; an empty object store sits behind a slice iterator whose Current is only defined while IsValid.", "6/C19"),
  "C20": ("exploration", "accept/reject oracle from the generator's referenced-symbol set and an independent reflection walk; node-kind census",
          "For every typed query and every referenced symbol a store where exactly that symbol is non-public must reject naming it; all-public must accept; node kinds reached are compared with the Visitor method set.",
-         "", "6/C20"),
+         "Sort fields adopted from another query (AdoptSortFields) are validated like the query's own; a grant part judges who a symbol published by a child store is public for.", "6/C20"),
 }
 
 BUILT = [l.strip() for l in open(os.path.join(HERE, "BUILT")).read().split() if l.strip()]
